@@ -298,6 +298,14 @@ func (s *Scheme) runDKG(ctx context.Context, membership *membership, dkgProtocol
 			allowedList: universalIDsToUintMap(universalIds),
 		}
 
+		// The protocol instance must be initialized before the reliable broadcast instance is registered,
+		// otherwise an early message of a fast (or misbehaving) participant reaches an uninitialized instance.
+		if err := s.initializeDKG(dkgProtocolInstance, t, UIntsToUniversalIDs(members), membership); err != nil {
+			s.Logger.Errorf("Failed initializing DKG: %v", err)
+			resultChan <- mpcResult{err: err}
+			return
+		}
+
 		s.lock.Lock()
 		_, rbcExisted := s.rbcInProgress[string(dkgTopicHash)]
 		s.rbcInProgress[string(dkgTopicHash)] = rbc.Receive
@@ -308,12 +316,6 @@ func (s *Scheme) runDKG(ctx context.Context, membership *membership, dkgProtocol
 		}
 
 		s.Logger.Debugf("Running keygen with parties %v", members)
-
-		if err := s.initializeDKG(dkgProtocolInstance, t, UIntsToUniversalIDs(members), membership); err != nil {
-			s.Logger.Errorf("Failed initializing DKG: %v", err)
-			resultChan <- mpcResult{err: err}
-			return
-		}
 
 		// We use a synchronizer to synchronize on the hash of the parties, to ensure that all parties that participate
 		// in DKG are in agreement on the membership of the DKG.
